@@ -1,10 +1,558 @@
 import CuqiVerif.Model.C15
+import CuqiVerif.Proofs.C15
+import Mathlib.Algebra.BigOperators.Group.Finset.Basic
+import Mathlib.Algebra.BigOperators.Ring.Finset
+import Mathlib.Algebra.Order.BigOperators.Ring.Finset
+import Mathlib.Data.Matrix.Mul
+import Mathlib.Algebra.Order.Field.Basic
+import Mathlib.Tactic.Ring
+import Mathlib.Tactic.Linarith
+import Mathlib.Tactic.NormNum
+import Mathlib.Tactic.FieldSimp
+
+/-!
+# C15 — MAP/ML estimates are true maximisers; direct Gaussian sampling has exact moments
+
+Everything is about the executable definitions of `CuqiVerif/Model/C15.lean` (the driver runs them
+at `R = Rat`); the theorems hold for every commutative ring / field `R` (ordered field where an
+inequality is stated), every size, every matrix, **every solver** (its answer is certified inside
+`NArr.solve`).
+
+`mapDirect` = `BayesianProblem.MAP` (direct branch) with numpy semantics; `sysMat = A Cx Aᵀ + Ce`;
+`assemble = x0 + Cx Aᵀ s`; `normalResidual` = row residual of `(AᵀWeA + Wx) x = AᵀWe b + Wx x0`
+written as the gradient `AᵀWe(b − Ax) − Wx(x − x0)`; `logPost`/`gradPost`/`curv` (Proofs/C15) are the
+un-normalised Gaussian log-posterior, its gradient and its curvature on Mathlib matrices; `toM`,
+`toV` read an entry function as a Mathlib matrix / vector.
+-/
+open Finset Matrix
+
+set_option linter.unusedSectionVars false
+set_option linter.unusedVariables false
 
 namespace CuqiVerif.C15
 
-/-- a Gaussian without a stored covariance makes the closed-form MAP raise `NotImplementedError` -/
-theorem refuses_non_cov_forms_lik {R : Type} [Zero R] [One R] [Add R] [Sub R] [Mul R] [DecidableEq R]
-    (slv : Solver R) (A : NArr R) (rd dd : Nat) (cx : Option (NArr R)) (x0 b : NArr R) :
-    mapDirect slv A rd dd none cx x0 b = .error .notImplemented := rfl
+/-! ## 1. the closed-form route on 2-D (or scalar) covariances -/
+
+section closedForm
+variable {R : Type} [CommRing R] [DecidableEq R]
+
+/-- **mapDirect_sound** (`tarantola`).  Whenever the closed-form branch returns, with covariance
+    attributes that expand to `m×m` / `n×n` matrices, it returned `x0 + Cx Aᵀ s` for an `s` that
+    solves `(A Cx Aᵀ + Ce) s = b − A x0` exactly — for every solver. -/
+theorem mapDirect_sound (slv : Solver R) (m n : ℕ) (Af : ℕ → ℕ → R) (Ce Cx : NArr R)
+    (CeF CxF : ℕ → ℕ → R) (x0 b : ℕ → R) (r : NArr R)
+    (hCe : diagIfVec (expandScalar Ce m) = .m m m CeF) (hCx : diagIfVec (expandScalar Cx n) = .m n n CxF)
+    (h : mapDirect slv (.m m n Af) m n (some Ce) (some Cx) (.v n x0) (.v m b) = .ok r) :
+    ∃ s x, r = .v n x ∧ (∀ j, j < n → x j = assemble m n Af CxF x0 s j) ∧
+      ∀ i, i < m → mvec m (sysMat n Af CxF CeF) s i = b i - mvec n Af x0 i := by
+  unfold mapDirect at h
+  simp only [getCov, hCe, hCx, NArr.matmul, NArr.T, NArr.add, NArr.sub, NArr.zipB, bdim_self,
+    ↓reduceIte, bind, Except.bind] at h
+  split at h
+  · cases h
+  · rename_i v hv
+    obtain ⟨s, rfl, hs⟩ := solve_ok _ _ _ _ _ hv
+    simp only [↓reduceIte, bdim_self] at h
+    cases h
+    refine ⟨s, _, rfl, ?_, ?_⟩
+    · intro j hj
+      simp only [assemble, bidx_lt hj]
+    · intro i hi
+      have := hs i hi
+      simp only [bidx_lt hi] at this
+      show sumTo m (fun l => sysMat n Af CxF CeF i l * s l) = b i - sumTo n (fun l => Af i l * x0 l)
+      rw [← this]
+      simp only [sysMat]
+      exact sumTo_congr _ _ _ fun k hk => by simp only [bidx_lt hk]
+
+/-- a concrete solver for the examples: the constant candidate `s`, accepted only if it solves -/
+def constSolver (s : ℕ → R) : Solver R := fun _ _ _ => some s
+
+example : ∃ x, mapDirect (constSolver (fun _ => (1:ℤ))) (.m 1 1 fun _ _ => 1) 1 1 (some (.m 1 1 fun _ _ => 1))
+    (some (.s 1)) (.v 1 fun _ => 0) (.v 1 fun _ => 2) = .ok (.v 1 x) ∧ x 0 = 1 := ⟨_, rfl, by decide⟩
+
+/-- **expandCov_documented.**  For *every* documented covariance argument — a scalar, a size-1
+    array, a 1-D vector of the variances, a `dim × dim` matrix — the array the closed form works
+    with is the documented covariance matrix (`docCov`: "If a scalar or 1d-array, the value defines
+    the diagonal entries of the covariance matrix"). -/
+theorem expandCov_documented (C : NArr R) (dim : ℕ) (G : ℕ → ℕ → R)
+    (hdoc : docCov dim C = some G) :
+    ∃ G', diagIfVec (expandScalar C dim) = .m dim dim G' ∧ ∀ i j, G' i j = G i j := by
+  cases C with
+  | s c =>
+    simp only [docCov, Option.some.injEq] at hdoc
+    subst hdoc
+    exact ⟨_, by simp [expandScalar, NArr.size, NArr.first, NArr.scale, eye, diagIfVec]; rfl, fun i j => by
+      by_cases h : i = j <;> simp [h]⟩
+  | v l f =>
+    simp only [docCov] at hdoc
+    split at hdoc
+    · rename_i hl
+      subst hl
+      simp only [Option.some.injEq] at hdoc
+      subst hdoc
+      exact ⟨_, by simp [expandScalar, NArr.size, NArr.first, NArr.scale, eye, diagIfVec]; rfl, fun i j => by
+        by_cases h : i = j <;> simp [h]⟩
+    · rename_i hl
+      split at hdoc
+      · rename_i hd
+        subst hd
+        simp only [Option.some.injEq] at hdoc
+        subst hdoc
+        exact ⟨_, by simp [expandScalar, NArr.size, hl, diagIfVec], fun _ _ => rfl⟩
+      · cases hdoc
+  | m r c F =>
+    simp only [docCov] at hdoc
+    split at hdoc
+    · rename_i h1
+      obtain ⟨rfl, rfl⟩ := h1
+      simp only [Option.some.injEq] at hdoc
+      subst hdoc
+      exact ⟨_, by simp [expandScalar, NArr.size, NArr.first, NArr.scale, eye, diagIfVec]; rfl, fun i j => by
+        by_cases h : i = j <;> simp [h]⟩
+    · rename_i h1
+      split at hdoc
+      · rename_i h2
+        simp only [Option.some.injEq] at hdoc
+        have hs : ¬ (r * c = 1) := by
+          intro h
+          exact h1 ⟨Nat.eq_one_of_mul_eq_one_right h, Nat.eq_one_of_mul_eq_one_left h⟩
+        refine ⟨F, ?_, fun i j => by rw [← hdoc]⟩
+        obtain ⟨hr, hc⟩ := h2
+        rw [← hr] at hc ⊢
+        have hs' : ¬ (r * r = 1) := by rw [hc] at hs; exact hs
+        rw [hc]
+        simp only [expandScalar, NArr.size, hs', ↓reduceIte, diagIfVec]
+      · cases hdoc
+
+example : docCov 3 (.s (2:ℚ)) = some (fun i j => if i = j then 2 else 0) := rfl
+
+end closedForm
+
+/-! ## 2. Tarantola's form = information form; the point is the unique maximiser -/
+
+section field
+variable {K : Type} [Field K] [DecidableEq K]
+
+/-- **mapDirect_normal_equations** (`tarantola_eq_information_form`, on the executable model).
+    With `We`, `Wx` left inverses of the covariances the code used, the returned point satisfies the
+    information-form normal equations `(AᵀWeA + Wx) x = AᵀWe b + Wx x0` (every row residual is 0),
+    i.e. it is the closed-form posterior mean. -/
+theorem mapDirect_normal_equations (slv : Solver K) (m n : ℕ) (Af : ℕ → ℕ → K) (Ce Cx : NArr K)
+    (CeF CxF We Wx : ℕ → ℕ → K) (x0 b : ℕ → K) (r : NArr K)
+    (hCe : diagIfVec (expandScalar Ce m) = .m m m CeF) (hCx : diagIfVec (expandScalar Cx n) = .m n n CxF)
+    (hWe : ∀ i j, i < m → j < m → sumTo m (fun k => We i k * CeF k j) = if i = j then 1 else 0)
+    (hWx : ∀ i j, i < n → j < n → sumTo n (fun k => Wx i k * CxF k j) = if i = j then 1 else 0)
+    (h : mapDirect slv (.m m n Af) m n (some Ce) (some Cx) (.v n x0) (.v m b) = .ok r) :
+    ∃ x, r = .v n x ∧ ∀ j, j < n → normalResidual m n Af We Wx x0 b x j = 0 := by
+  obtain ⟨s, x, rfl, hx, hs⟩ := mapDirect_sound slv m n Af Ce Cx CeF CxF x0 b r hCe hCx h
+  refine ⟨x, rfl, ?_⟩
+  have hWe' : toM m m We * toM m m CeF = 1 := by
+    rw [← toM_mmul]; exact (toM_eq_one_iff m _).mpr hWe
+  have hWx' : toM n n Wx * toM n n CxF = 1 := by
+    rw [← toM_mmul]; exact (toM_eq_one_iff n _).mpr hWx
+  have hs' : (toM m n Af * toM n n CxF * (toM m n Af)ᵀ + toM m m CeF) *ᵥ toV m s
+      = toV m b - toM m n Af *ᵥ toV n x0 := by
+    rw [← toM_sysMat, ← toV_mvec, ← toV_mvec]
+    funext i
+    exact hs i i.isLt
+  have hxv : toV n x = toV n (assemble m n Af CxF x0 s) := funext fun j => hx j j.isLt
+  have key := toV_normalResidual m n Af We Wx x0 b x
+  rw [hxv, toV_assemble] at key
+  rw [tarantola_stationary _ _ _ _ _ _ _ _ hWe' hWx' hs'] at key
+  intro j hj
+  exact congrFun key ⟨j, hj⟩
+
+example : normalResidual 1 1 (fun _ _ => (1:ℚ)) (fun _ _ => 1) (fun _ _ => 1) (fun _ => 0) (fun _ => 2) (fun _ => 1) 0 = 0 := by
+  simp [normalResidual, mvec, sumTo]; norm_num
+
+/-- **tarantola_eq_information_form** (Mathlib matrices, any field).  If `We Ce = 1`, `Wx Cx = 1`,
+    `C (AᵀWeA + Wx) = 1` and `(A Cx Aᵀ + Ce) s = b − A x0`, then
+    `x0 + Cx Aᵀ s = C (AᵀWe b + Wx x0)`. -/
+theorem tarantola_eq_information_form {m n : ℕ} (A : Matrix (Fin m) (Fin n) K)
+    (Ce We : Matrix (Fin m) (Fin m) K) (Cx Wx C : Matrix (Fin n) (Fin n) K)
+    (x0 : Fin n → K) (b s : Fin m → K)
+    (hWe : We * Ce = 1) (hWx : Wx * Cx = 1) (hC : C * (Aᵀ * We * A + Wx) = 1)
+    (hs : (A * Cx * Aᵀ + Ce) *ᵥ s = b - A *ᵥ x0) :
+    x0 + Cx *ᵥ (Aᵀ *ᵥ s) = C *ᵥ (Aᵀ *ᵥ (We *ᵥ b) + Wx *ᵥ x0) := by
+  have hst := tarantola_stationary A Ce We Cx Wx x0 b s hWe hWx hs
+  set x := x0 + Cx *ᵥ (Aᵀ *ᵥ s) with hxdef
+  have hH : (Aᵀ * We * A + Wx) *ᵥ x = Aᵀ *ᵥ (We *ᵥ b) + Wx *ᵥ x0 := by
+    have e : Aᵀ *ᵥ (We *ᵥ (b - A *ᵥ x)) - Wx *ᵥ (x - x0)
+        = (Aᵀ *ᵥ (We *ᵥ b) + Wx *ᵥ x0) - (Aᵀ * We * A + Wx) *ᵥ x := by
+      rw [Matrix.mulVec_sub, Matrix.mulVec_sub, Matrix.mulVec_sub, Matrix.add_mulVec,
+        ← Matrix.mulVec_mulVec, ← Matrix.mulVec_mulVec]
+      abel
+    rw [e] at hst
+    exact (sub_eq_zero.mp hst).symm
+  calc x = (C * (Aᵀ * We * A + Wx)) *ᵥ x := by rw [hC, Matrix.one_mulVec]
+    _ = C *ᵥ (Aᵀ *ᵥ (We *ᵥ b) + Wx *ᵥ x0) := by rw [← Matrix.mulVec_mulVec, hH]
+
+example : (1 : Matrix (Fin 1) (Fin 1) ℚ) * 1 = 1 := by simp
+
+end field
+
+section ordered
+variable {K : Type} [Field K] [LinearOrder K] [IsStrictOrderedRing K] {m n : ℕ}
+
+/-- **logPost_directional.**  Along every line the Gaussian log-posterior is the quadratic
+    `t ↦ φ(x) + t·(d·∇φ(x)) − t²/2·dᵀ(AᵀWeA + Wx)d`: `gradPost` is its gradient (coefficient of `t`). -/
+theorem logPost_directional (A : Matrix (Fin m) (Fin n) K) (We : Matrix (Fin m) (Fin m) K)
+    (Wx : Matrix (Fin n) (Fin n) K) (hWe : Weᵀ = We) (hWx : Wxᵀ = Wx) (x0 : Fin n → K) (b : Fin m → K)
+    (x d : Fin n → K) (t : K) :
+    logPost A We Wx x0 b (x + t • d)
+      = logPost A We Wx x0 b x + t * (d ⬝ᵥ gradPost A We Wx x0 b x) - t ^ 2 / 2 * curv A We Wx d := by
+  rw [logPost_expand A We Wx hWe hWx]
+  simp only [curv, Matrix.mulVec_smul, smul_dotProduct, dotProduct_smul, smul_eq_mul]
+  ring
+
+/-- **gaussian_post_maximiser.**  A stationary point of the Gaussian log-posterior (symmetric
+    precisions, `We` positive semidefinite, `Wx` positive definite) is its unique global maximiser. -/
+theorem gaussian_post_maximiser (A : Matrix (Fin m) (Fin n) K) (We : Matrix (Fin m) (Fin m) K)
+    (Wx : Matrix (Fin n) (Fin n) K) (hWe : Weᵀ = We) (hWx : Wxᵀ = Wx)
+    (hpsd : ∀ v, 0 ≤ v ⬝ᵥ (We *ᵥ v)) (hpd : ∀ d, d ≠ 0 → 0 < d ⬝ᵥ (Wx *ᵥ d))
+    (x0 : Fin n → K) (b : Fin m → K) (xh : Fin n → K) (hstat : gradPost A We Wx x0 b xh = 0) :
+    (∀ x, logPost A We Wx x0 b x ≤ logPost A We Wx x0 b xh) ∧
+    (∀ x, logPost A We Wx x0 b x = logPost A We Wx x0 b xh → x = xh) := by
+  have hexp : ∀ x, logPost A We Wx x0 b x
+      = logPost A We Wx x0 b xh - (1/2) * curv A We Wx (x - xh) := by
+    intro x
+    have := logPost_expand A We Wx hWe hWx x0 b xh (x - xh)
+    rw [hstat, dotProduct_zero, add_zero] at this
+    rw [← this]; congr 1; abel
+  have hcurv : ∀ d, 0 ≤ curv A We Wx d := fun d => by
+    unfold curv
+    by_cases hd : d = 0
+    · subst hd; simp
+    · exact add_nonneg (hpsd _) (le_of_lt (hpd d hd))
+  constructor
+  · intro x
+    rw [hexp x]
+    have := hcurv (x - xh)
+    linarith
+  · intro x hx
+    rw [hexp x] at hx
+    by_contra hne
+    have hd : x - xh ≠ 0 := sub_ne_zero.mpr hne
+    have : 0 < curv A We Wx (x - xh) := by
+      unfold curv
+      exact add_pos_of_nonneg_of_pos (hpsd _) (hpd _ hd)
+    linarith
+
+example : ∀ d : Fin 1 → ℚ, d ≠ 0 → 0 < d ⬝ᵥ ((1 : Matrix (Fin 1) (Fin 1) ℚ) *ᵥ d) := by
+  intro d hd
+  have h0 : d 0 ≠ 0 := fun h => hd (funext fun i => by rw [Subsingleton.elim i 0]; exact h)
+  simp [dotProduct]
+  exact h0
+
+/-- **gaussian_post_stationary_of_max.**  Conversely a maximiser is a stationary point (the gradient
+    vanishes at the MAP). -/
+theorem gaussian_post_stationary_of_max (A : Matrix (Fin m) (Fin n) K) (We : Matrix (Fin m) (Fin m) K)
+    (Wx : Matrix (Fin n) (Fin n) K) (hWe : Weᵀ = We) (hWx : Wxᵀ = Wx)
+    (x0 : Fin n → K) (b : Fin m → K) (xh : Fin n → K)
+    (hmax : ∀ x, logPost A We Wx x0 b x ≤ logPost A We Wx x0 b xh) :
+    gradPost A We Wx x0 b xh = 0 := by
+  set g := gradPost A We Wx x0 b xh with hg
+  by_contra hne
+  have hgg : 0 < g ⬝ᵥ g := by
+    have : ∃ i, g i ≠ 0 := by
+      by_contra hall
+      exact hne (funext fun i => by_contra fun hi => hall ⟨i, hi⟩)
+    obtain ⟨i, hi⟩ := this
+    unfold dotProduct
+    exact Finset.sum_pos' (fun j _ => mul_self_nonneg _) ⟨i, Finset.mem_univ _, mul_self_pos.mpr hi⟩
+  set c := curv A We Wx g with hc
+  -- choose a small step along g
+  have key : ∀ t : K, t * (g ⬝ᵥ g) - t ^ 2 / 2 * c ≤ 0 := by
+    intro t
+    have h1 := logPost_directional A We Wx hWe hWx x0 b xh g t
+    have h2 := hmax (xh + t • g)
+    rw [h1] at h2
+    linarith
+  by_cases hcpos : 0 < c
+  · have := key ((g ⬝ᵥ g) / c)
+    have hne' : c ≠ 0 := ne_of_gt hcpos
+    have e : (g ⬝ᵥ g) / c * (g ⬝ᵥ g) - ((g ⬝ᵥ g) / c) ^ 2 / 2 * c = (g ⬝ᵥ g) ^ 2 / (2 * c) := by
+      field_simp; ring
+    rw [e] at this
+    have : 0 < (g ⬝ᵥ g) ^ 2 / (2 * c) := by positivity
+    linarith
+  · have hc0 : c ≤ 0 := not_lt.mp hcpos
+    have := key 1
+    have : (1:K) ^ 2 / 2 * c ≤ 0 := by
+      have : (1:K) ^ 2 / 2 = 1 / 2 := by norm_num
+      rw [this]; nlinarith
+    nlinarith [key 1]
+
+/-- **mapDirect_is_maximiser** (`gaussian_post_maximiser` on the executable model).  What the
+    closed-form branch returns for 2-D / scalar covariances is the unique maximiser of the
+    Gaussian posterior density with precisions `We = Ce⁻¹`, `Wx = Cx⁻¹`, and its gradient vanishes. -/
+theorem mapDirect_is_maximiser [DecidableEq K] (slv : Solver K) (m n : ℕ) (Af : ℕ → ℕ → K) (Ce Cx : NArr K)
+    (CeF CxF We Wx : ℕ → ℕ → K) (x0 b : ℕ → K) (r : NArr K)
+    (hCe : diagIfVec (expandScalar Ce m) = .m m m CeF) (hCx : diagIfVec (expandScalar Cx n) = .m n n CxF)
+    (hWe : ∀ i j, i < m → j < m → sumTo m (fun k => We i k * CeF k j) = if i = j then 1 else 0)
+    (hWx : ∀ i j, i < n → j < n → sumTo n (fun k => Wx i k * CxF k j) = if i = j then 1 else 0)
+    (hWes : (toM m m We)ᵀ = toM m m We) (hWxs : (toM n n Wx)ᵀ = toM n n Wx)
+    (hpsd : ∀ v, 0 ≤ v ⬝ᵥ (toM m m We *ᵥ v)) (hpd : ∀ d, d ≠ 0 → 0 < d ⬝ᵥ (toM n n Wx *ᵥ d))
+    (h : mapDirect slv (.m m n Af) m n (some Ce) (some Cx) (.v n x0) (.v m b) = .ok r) :
+    ∃ x, r = .v n x ∧
+      gradPost (toM m n Af) (toM m m We) (toM n n Wx) (toV n x0) (toV m b) (toV n x) = 0 ∧
+      (∀ y, logPost (toM m n Af) (toM m m We) (toM n n Wx) (toV n x0) (toV m b) y
+          ≤ logPost (toM m n Af) (toM m m We) (toM n n Wx) (toV n x0) (toV m b) (toV n x)) ∧
+      (∀ y, logPost (toM m n Af) (toM m m We) (toM n n Wx) (toV n x0) (toV m b) y
+          = logPost (toM m n Af) (toM m m We) (toM n n Wx) (toV n x0) (toV m b) (toV n x) → y = toV n x) := by
+  obtain ⟨x, rfl, hres⟩ := mapDirect_normal_equations slv m n Af Ce Cx CeF CxF We Wx x0 b r hCe hCx hWe hWx h
+  have hgrad : gradPost (toM m n Af) (toM m m We) (toM n n Wx) (toV n x0) (toV m b) (toV n x) = 0 := by
+    unfold gradPost
+    rw [← toV_normalResidual]
+    funext j
+    exact hres j j.isLt
+  obtain ⟨h1, h2⟩ := gaussian_post_maximiser _ _ _ hWes hWxs hpsd hpd (toV n x0) (toV m b) (toV n x) hgrad
+  exact ⟨x, rfl, hgrad, h1, h2⟩
+
+end ordered
+
+/-! ## 3. refusals; 1-D covariance vectors -/
+
+section negative
+
+/- Repo commit 0527445 repaired DESIGN §5 #23 (a 1-D covariance vector was broadcast inside
+   `A Cx Aᵀ + Ce`): `diagIfVec` now puts it on the diagonal and `expandCov_documented` holds for
+   vectors.  The former witnesses are kept as *positive* instances: `A = [[1],[0]]`, noise covariance
+   vector `[1, 1]`, `Cx = 1`, `x0 = 0`, `b = [2, 1]` gives `x = 1` with zero gradient; and `A = I₂`,
+   prior covariance vector `[1, 1]`, `b = [2, 2]` gives `[1, 1]`. -/
+example : ∃ x, mapDirect (constSolver (fun _ => (1:ℤ)))
+        (.m 2 1 fun i _ => if i = 0 then 1 else 0) 2 1
+        (some (.v 2 fun _ => 1)) (some (.m 1 1 fun _ _ => 1)) (.v 1 fun _ => 0) (.v 2 fun i => if i = 0 then 2 else 1) = .ok (.v 1 x)
+      ∧ docCov 2 (.v 2 fun _ => (1:ℤ)) = some (fun i j => if i = j then 1 else 0)
+      ∧ normalResidual 2 1 (fun i _ => if i = 0 then (1:ℤ) else 0) (fun i j => if i = j then 1 else 0)
+          (fun _ _ => 1) (fun _ => 0) (fun i => if i = 0 then 2 else 1) x 0 = 0 :=
+  ⟨_, rfl, rfl, by decide⟩
+
+example : ∃ x, mapDirect (constSolver (fun _ => (1:ℤ)))
+        (.m 2 2 fun i j => if i = j then 1 else 0) 2 2
+        (some (.m 2 2 fun i j => if i = j then 1 else 0)) (some (.v 2 fun _ => 1))
+        (.v 2 fun _ => 0) (.v 2 fun _ => 2) = .ok (.v 2 x)
+      ∧ normalResidual 2 2 (fun i j => if i = j then (1:ℤ) else 0) (fun i j => if i = j then 1 else 0)
+          (fun i j => if i = j then 1 else 0) (fun _ => 0) (fun _ => 2) x 1 = 0 :=
+  ⟨_, rfl, by decide⟩
+
+variable {R : Type} [CommRing R] [DecidableEq R]
+
+/-- **refuses_non_cov_forms.**  A Gaussian that holds no covariance (`prec`, `sqrtcov`, `sqrtprec`
+    parameterisations before `compute_cov()`) makes the closed-form MAP and the direct sampler raise
+    `NotImplementedError` — never a point. -/
+theorem refuses_non_cov_forms (slv : Solver R) (A : NArr R) (rd dd : ℕ) (c : Option (NArr R)) (x0 b : NArr R) :
+    mapDirect slv A rd dd none c x0 b = .error .notImplemented ∧
+    mapDirect slv A rd dd (some (.s 1)) none x0 b = .error .notImplemented ∧
+    sampleCentre slv A rd dd none c x0 b = .error .notImplemented ∧
+    sampleCentre slv A rd dd (some (.s 1)) none x0 b = .error .notImplemented :=
+  ⟨rfl, rfl, rfl, rfl⟩
+
+example : mapDirect (constSolver (fun _ => (0:ℤ))) (.m 1 1 fun _ _ => 1) 1 1 none none (.v 1 fun _ => 0) (.v 1 fun _ => 0)
+    = .error .notImplemented := rfl
+
+/-- **sampleCentre_refuses_vectors.**  With a 1-D covariance vector (length > 1) on either side the
+    direct sampler never produces draws: whatever `MAP` returned, `np.linalg.inv` raises. -/
+theorem sampleCentre_refuses_vectors (slv : Solver R) (A : NArr R) (rd dd : ℕ) (Ce Cx : NArr R) (x0 b : NArr R)
+    (l : ℕ) (f : ℕ → R) (hl : l ≠ 1) (h : Ce = .v l f ∨ Cx = .v l f) (r : NArr R) :
+    sampleCentre slv A rd dd (some Ce) (some Cx) x0 b ≠ .ok r := by
+  intro hr
+  unfold sampleCentre at hr
+  simp only [getCov, bind, Except.bind] at hr
+  split at hr
+  · cases hr
+  · rcases h with h | h
+    · subst h
+      simp [expandScalar, NArr.size, hl, invShapeOk] at hr
+    · subst h
+      by_cases h1 : invShapeOk (expandScalar Ce rd) = true
+      · simp [expandScalar, NArr.size, hl, invShapeOk] at hr
+      · simp [h1] at hr
+
+example : sampleCentre (constSolver (fun _ => (1:ℤ)))
+        (.m 2 1 fun i _ => if i = 0 then 1 else 0) 2 1
+        (some (.v 2 fun _ => 1)) (some (.m 1 1 fun _ _ => 1)) (.v 1 fun _ => 0) (.v 2 fun i => if i = 0 then 2 else 1)
+      = .error .linAlgError := rfl
+
+end negative
+
+/-! ## 4. `get_matrix` and geometries -/
+
+section geometry
+variable {R : Type} [CommRing R]
+
+/-- **geometry_transparent** (function-backed models).  The matrix `get_matrix()` assembles from
+    the columns `forward(e_j)` represents `forward` on *parameters* for every linear domain/range
+    geometry: `G x = fun2par_R (A (par2fun_D x))` for all `x`.  Hence the closed form evaluated with
+    it is the parameter-space posterior mean (§1–2 with `Af := G`). -/
+theorem geometry_transparent (rf df rp dp : ℕ) (A E F : ℕ → ℕ → R) (x : ℕ → R) (i : ℕ) :
+    ∃ G, getMatrix false rf df rp dp A E F = .m rp dp G ∧ mvec dp G x i = forwardPar rf df dp A E F x i := by
+  refine ⟨_, rfl, ?_⟩
+  simp only [mvec, forwardPar, sumTo_eq_sum, Finset.sum_mul, Finset.mul_sum]
+  rw [Finset.sum_comm]
+  refine Finset.sum_congr rfl fun p _ => ?_
+  rw [Finset.sum_comm]
+  refine Finset.sum_congr rfl fun q _ => ?_
+  refine Finset.sum_congr rfl fun j _ => ?_
+  ring
+
+/-- **geometry_transparent_matrixBacked_partial.**  A matrix-backed model returns its stored matrix;
+    that represents `forward` on parameters when both geometry maps are identities
+    (`_DefaultGeometry1D`, `Continuous1D`, `Discrete`, full `StepExpansion`). -/
+theorem geometry_transparent_matrixBacked_partial (rf df : ℕ) (A E F : ℕ → ℕ → R) (x : ℕ → R) (i : ℕ)
+    (hi : i < rf)
+    (hE : ∀ q j, q < df → j < df → E q j = if q = j then 1 else 0)
+    (hF : ∀ p q, p < rf → q < rf → F p q = if p = q then 1 else 0) :
+    ∃ G, getMatrix true rf df rf df A E F = .m rf df G ∧ mvec df G x i = forwardPar rf df df A E F x i := by
+  refine ⟨A, rfl, ?_⟩
+  simp only [mvec, forwardPar, sumTo_eq_sum]
+  have h1 : ∀ q, q < df → ∑ j ∈ range df, E q j * x j = x q := by
+    intro q hq
+    rw [Finset.sum_eq_single q]
+    · rw [hE q q hq hq]; simp
+    · intro j hj hne
+      rw [hE q j hq (mem_range.mp hj)]; simp [Ne.symm hne]
+    · intro h; exact absurd (mem_range.mpr hq) h
+  have hR : ∑ p ∈ range rf, F i p * (∑ q ∈ range df, A p q * ∑ j ∈ range df, E q j * x j)
+      = ∑ q ∈ range df, A i q * x q := by
+    rw [Finset.sum_eq_single i]
+    · rw [hF i i hi hi]; simp
+      exact Finset.sum_congr rfl fun q hq => by rw [h1 q (mem_range.mp hq)]
+    · intro p hp hne
+      rw [hF i p hi (mem_range.mp hp)]; simp [Ne.symm hne]
+    · intro h; exact absurd (mem_range.mpr hi) h
+  rw [hR]
+
+/-- **getMatrix_matrixBacked_counterexample.**  `A = [1]` stored, domain geometry `par2fun = 2·`:
+    `get_matrix()` is `[1]` but `forward(1) = 2`; with `Ce = Cx = 1`, `x0 = 0`, `b = 2` the closed form
+    evaluated with the stored matrix returns `1`, where the gradient of the (parameter-space)
+    log-posterior, whose forward matrix is `[2]`, is `−1 ≠ 0`. -/
+theorem getMatrix_matrixBacked_counterexample :
+    (∃ G, getMatrix true 1 1 1 1 (fun _ _ => (1:ℤ)) (fun _ _ => 2) (fun _ _ => 1) = .m 1 1 G ∧
+      mvec 1 G (fun _ => 1) 0 ≠ forwardPar 1 1 1 (fun _ _ => (1:ℤ)) (fun _ _ => 2) (fun _ _ => 1) (fun _ => 1) 0) ∧
+    ∃ x, mapDirect (constSolver (fun _ => (1:ℤ))) (getMatrix true 1 1 1 1 (fun _ _ => (1:ℤ)) (fun _ _ => 2) (fun _ _ => 1)) 1 1
+        (some (.m 1 1 fun _ _ => 1)) (some (.m 1 1 fun _ _ => 1)) (.v 1 fun _ => 0) (.v 1 fun _ => 2) = .ok (.v 1 x)
+      ∧ normalResidual 1 1 (fun _ _ => (2:ℤ)) (fun _ _ => 1) (fun _ _ => 1) (fun _ => 0) (fun _ => 2) x 0 ≠ 0 :=
+  ⟨⟨_, rfl, by decide⟩, _, rfl, by decide⟩
+
+end geometry
+
+/-! ## 5. direct sampling -/
+
+section sampling
+variable {K : Type} [Field K]
+
+/-- **direct_draw_offset.**  The draw for `ξ = 0` is the MAP estimate; draws are affine in `ξ`. -/
+theorem direct_draw_offset (n : ℕ) (xmap : ℕ → K) (L : ℕ → ℕ → K) (xi eta : ℕ → K) (c : K) (i : ℕ) :
+    draw n xmap L (fun _ => 0) i = xmap i ∧
+    draw n xmap L (fun k => xi k + c * eta k) i - xmap i
+      = (draw n xmap L xi i - xmap i) + c * (draw n xmap L eta i - xmap i) := by
+  simp only [draw, sumTo_eq_sum, mul_zero, Finset.sum_const_zero, add_zero, true_and, add_sub_cancel_left]
+  rw [Finset.mul_sum, ← Finset.sum_add_distrib]
+  exact Finset.sum_congr rfl fun k _ => by ring
+
+/-- **direct_draw_moments.**  Under any (finitely supported, possibly signed) law of `ξ` with total
+    mass 1, mean 0 and second moments `δ_kl`, the draw `x_map + L ξ` has mean `x_map` and covariance
+    `L Lᵀ`.  With `L Lᵀ = C` and `C (AᵀWeA + Wx) = 1` (what `cholesky(inv(…))` delivers) these are the
+    posterior mean (§2) and the posterior covariance. -/
+theorem direct_draw_moments {Ω : Type} [Fintype Ω] (w : Ω → K) (ξ : Ω → ℕ → K) (n : ℕ)
+    (xmap : ℕ → K) (L : ℕ → ℕ → K)
+    (hw : ∑ ω, w ω = 1) (h1 : ∀ k, k < n → ∑ ω, w ω * ξ ω k = 0)
+    (h2 : ∀ k l, k < n → l < n → ∑ ω, w ω * (ξ ω k * ξ ω l) = if k = l then 1 else 0) (i j : ℕ) :
+    ∑ ω, w ω * draw n xmap L (ξ ω) i = xmap i ∧
+    ∑ ω, w ω * ((draw n xmap L (ξ ω) i - xmap i) * (draw n xmap L (ξ ω) j - xmap j))
+      = sumTo n (fun k => L i k * L j k) := by
+  constructor
+  · simp only [draw, sumTo_eq_sum, mul_add, Finset.sum_add_distrib, ← Finset.sum_mul, hw, one_mul]
+    have : ∑ ω, w ω * ∑ k ∈ range n, L i k * ξ ω k = ∑ k ∈ range n, L i k * ∑ ω, w ω * ξ ω k := by
+      simp only [Finset.mul_sum]
+      rw [Finset.sum_comm]
+      exact Finset.sum_congr rfl fun k _ => Finset.sum_congr rfl fun ω _ => by ring
+    rw [this, Finset.sum_eq_zero (fun k hk => by rw [h1 k (mem_range.mp hk), mul_zero]), add_zero]
+  · simp only [draw, sumTo_eq_sum, add_sub_cancel_left]
+    have : ∀ ω, w ω * ((∑ k ∈ range n, L i k * ξ ω k) * ∑ l ∈ range n, L j l * ξ ω l)
+        = ∑ k ∈ range n, ∑ l ∈ range n, L i k * L j l * (w ω * (ξ ω k * ξ ω l)) := by
+      intro ω
+      rw [Finset.sum_mul_sum, Finset.mul_sum]
+      refine Finset.sum_congr rfl fun k _ => ?_
+      rw [Finset.mul_sum]
+      exact Finset.sum_congr rfl fun l _ => by ring
+    simp only [this]
+    rw [Finset.sum_comm]
+    refine Finset.sum_congr rfl fun k hk => ?_
+    rw [Finset.sum_comm]
+    have : ∀ l ∈ range n, ∑ ω, L i k * L j l * (w ω * (ξ ω k * ξ ω l)) = L i k * L j l * (if k = l then 1 else 0) := by
+      intro l hl
+      rw [← Finset.mul_sum, h2 k l (mem_range.mp hk) (mem_range.mp hl)]
+    rw [Finset.sum_congr rfl this, Finset.sum_eq_single k]
+    · simp
+    · intro l _ hne; simp [Ne.symm hne]
+    · intro h; exact absurd hk h
+
+-- a two-point law for one standard-normal coordinate: ξ = ±1 with weights 1/2
+example : ∑ ω : Bool, (fun _ => (1/2 : ℚ)) ω * ((fun ω _ => if ω then (1:ℚ) else -1) ω 0 * (fun ω _ => if ω then (1:ℚ) else -1) ω 0) = 1 := by
+  simp; norm_num
+
+end sampling
+
+/-! ## 6. routes and the optimisation wrapper -/
+
+section routes
+
+/-- **mapRoute_direct_iff.**  The closed form is used exactly for Gaussian prior, Gaussian
+    likelihood, linear model, both dimensions within `MAX_DIM_INV`; ML never uses it. -/
+theorem mapRoute_direct_iff (p : Problem) :
+    (mapRoute p = .direct ↔ p.prior = .gaussian ∧ p.lik = .gaussian ∧ p.model = .linear ∧
+      p.domainDim ≤ p.maxDimInv ∧ p.rangeDim ≤ p.maxDimInv) ∧ mlRoute p ≠ .direct := by
+  constructor
+  · unfold mapRoute Problem.directOk Problem.dimsOk
+    cases hp : p.prior <;> cases hl : p.lik <;> cases hm : p.model <;>
+      simp [PriorKind.isGaussian] <;> split <;> simp
+  · unfold mlRoute; split <;> simp
+
+/-- **sampleRoute_mapCholesky_iff.**  Direct sampling is selected under the same condition. -/
+theorem sampleRoute_mapCholesky_iff (p : Problem) :
+    sampleRoute p = .mapCholesky ↔ mapRoute p = .direct := by
+  unfold sampleRoute mapRoute
+  by_cases h : p.directOk = true
+  · have hg : p.prior = .gaussian := by
+      unfold Problem.directOk at h
+      cases hp : p.prior <;> simp [hp, PriorKind.isGaussian] at h ⊢
+    simp [h, hg]
+  · simp only [h, Bool.false_and, Bool.false_eq_true, ↓reduceIte]
+    constructor
+    · intro h'
+      repeat' split at h'
+      all_goals cases h'
+    · intro h'
+      repeat' split at h'
+      all_goals cases h'
+
+example : sampleRoute ⟨.gaussian, .gaussian, .linear, 3, 4, true, true, 2000⟩ = .mapCholesky := by decide
+
+end routes
+
+section opt
+variable {X : Type} {K : Type} [AddCommGroup K] [PartialOrder K] [IsOrderedAddMonoid K]
+
+/-- **maximize_sign.**  The optimisation route hands SciPy exactly `−logd` (and `−gradient`), so a
+    (local) minimiser SciPy returns — which the wrappers pass through untouched — is a (local)
+    maximiser of the density on the same set, and the objective's gradient vanishes iff the
+    density's does. -/
+theorem maximize_sign (logd : X → K) (grad : Option (X → X)) (negX : X → X) (x0 xs : X) (S : Set X) :
+    let P := solveMaxPointProblem logd grad negX x0
+    ((∀ y ∈ S, P.func xs ≤ P.func y) ↔ (∀ y ∈ S, logd y ≤ logd xs)) ∧
+    P.x0 = x0 ∧ wrapperResult xs = xs ∧
+    (∀ g, grad = some g → ∃ g', P.gradfunc = some g' ∧ ∀ x, g' x = negX (g x)) ∧
+    (grad = none → P.gradfunc = none) := by
+  refine ⟨?_, rfl, rfl, ?_, ?_⟩
+  · simp only [solveMaxPointProblem, neg_le_neg_iff]
+  · intro g hg; subst hg; exact ⟨_, rfl, fun _ => rfl⟩
+  · intro hg; subst hg; rfl
+
+example : (solveMaxPointProblem (fun x : ℤ => -(x * x)) none (fun x => -x) 1).func 3 = 9 := by decide
+
+end opt
 
 end CuqiVerif.C15
